@@ -457,6 +457,13 @@ def gen_op(rng, m, H, ftab, profile, filtered, avoid):
             free = [x for x in CELL_NAMES if x not in H[hs].cells]
             if free:
                 name = rng.choice(free)
+        if is_alive(H[hs]) and avoid and name not in H[hs].cells and \
+                any(name in t.cells and t.cells[name]._is_derived() for t in subs_of(m, H[hs])):
+            # not a defect: which definer a sub space's derived cells follows is decided by the C3 order, which
+            # Alive/Model.v does not model (since /repo 259d8c0 such a cells is re-derived from the new definer when it
+            # comes first, and loses its values); the operation is not drawn
+            filtered["C3_order_newcells"] = filtered.get("C3_order_newcells", 0) + 1
+            return None
         return ["NewCells", hs, name]
     if k == "Take":
         h = pick(spacelike + dyn + dyn)
